@@ -1,4 +1,4 @@
-(* RFC 8259 (restricted to ASCII) as inductive predicates over byte strings. *)
+(* RFC 8259 as inductive predicates over byte strings (UTF-8 text). *)
 From Coq Require Import String NArith List Bool.
 From GF Require Import Base.Res Base.Bytes.
 Import ListNotations.
@@ -6,9 +6,20 @@ Open Scope N_scope.
 
 Definition is_hex (b : N) : Prop := (48 <= b /\ b <= 57) \/ (97 <= b /\ b <= 102) \/ (65 <= b /\ b <= 70).
 
+(* a well-formed multi-byte UTF-8 sequence (RFC 3629, table 3-7 of the Unicode standard): no overlong forms,
+   no surrogates, nothing above U+10FFFF *)
+Definition cb (x : N) : Prop := 128 <= x /\ x <= 191.
+Inductive utf8_seq : bytes -> Prop :=
+| u2 a b : 194 <= a -> a <= 223 -> cb b -> utf8_seq [a; b]
+| u3 a b c : 224 <= a -> a <= 239 -> (if a =? 224 then 160 else 128) <= b -> b <= (if a =? 237 then 159 else 191) -> cb c ->
+             utf8_seq [a; b; c]
+| u4 a b c d : 240 <= a -> a <= 244 -> (if a =? 240 then 144 else 128) <= b -> b <= (if a =? 244 then 143 else 191) -> cb c -> cb d ->
+               utf8_seq [a; b; c; d].
+
 (* the characters between the quotes of a JSON string *)
 Inductive json_chars : bytes -> Prop :=
 | jc_nil : json_chars []
+| jc_utf8 w r : utf8_seq w -> json_chars r -> json_chars (w ++ r)
 | jc_plain b r : 32 <= b -> b < 128 -> b <> 34 -> b <> 92 -> json_chars r -> json_chars (b :: r)
 | jc_esc c r : In c [34; 92; 47; 98; 102; 110; 114; 116] -> json_chars r -> json_chars (92 :: c :: r)
 | jc_u a b c d r : is_hex a -> is_hex b -> is_hex c -> is_hex d -> json_chars r ->
